@@ -256,7 +256,15 @@ func eval(c Case) (out Outcome) {
 					if content && after != en.before {
 						return fail(kit.Failf("UNDO-CONTENT", "after Undo() the content is not what it was before the undone %s edit:\n want %s\n got  %s", en.kind, en.before, after))
 					}
-					redo = append(redo, en)
+					// content stratum: an undone content edit must be
+					// redoable (strict); robust stratum: restoration of
+					// styles/moves is approximate, the model follows the
+					// real stack
+					if content || r1 != r0 {
+						redo = append(redo, en)
+					} else {
+						out.Ev["undo_left_no_redo_entry"]++
+					}
 				} else {
 					out.Ev["undo_setup_entry"]++
 					// an entry that predates remote changes is outside the
@@ -281,7 +289,11 @@ func eval(c Case) (out Outcome) {
 					if content && after != en.after {
 						return fail(kit.Failf("REDO-CONTENT", "after Redo() the content is not what it was after the redone %s edit:\n want %s\n got  %s", en.kind, en.after, after))
 					}
-					undo = append(undo, en)
+					if content || l1 == l0+1 {
+						undo = append(undo, en)
+					} else {
+						out.Ev["redo_left_no_undo_entry"]++
+					}
 				} else {
 					out.Ev["redo_opaque_entry"]++
 					if l1 == l0+1 {
@@ -550,6 +562,7 @@ func runRapid(t *testing.T, part, stratum string) {
 	var best *Case
 	var bestOut Outcome
 	harness := ""
+	notes := 0
 	defer func() {
 		if best != nil {
 			path := kit.WriteReplay(prop, "case", fmt.Sprintf("%s-%016x", part, best.hash()), best, bestOut.Fail, bestOut.Hist)
@@ -569,6 +582,11 @@ func runRapid(t *testing.T, part, stratum string) {
 		c := gen.Draw(rt, "case")
 		out := eval(c)
 		col.Record(c.hash(), out.NonTrivial && out.Fail == nil, out.Ev, func() any { return sampleOf(c, out) })
+		if out.Ev["skip_setup_error"] > 0 && notes < 3 && len(out.Hist) > 0 {
+			notes++
+			b, _ := json.Marshal(c)
+			col.Note("setup error (case not evaluated, not this property): %s | case %s", out.Hist[len(out.Hist)-1], b)
+		}
 		if out.Fail != nil {
 			if out.Fail.Kind == "HARNESS" {
 				harness = out.Fail.Msg
